@@ -1,4 +1,6 @@
 import SccacheModel.Model.Client
+import SccacheModel.Proofs.FrameCodec
+import SccacheModel.Proofs.Frame
 
 /-! # C11 — losing the server mid-request degrades to a correct local compile
 
@@ -38,5 +40,42 @@ theorem deliver_only_after_finished (ig : Bool) (f : First) (s : Second) (e : In
 theorem ignore_io_error_always_local (s : Second) (h : s = .eof ∨ s = .otherError) :
     clientDecide true .compileStarted s = .localCompile := by
   rcases h with rfl | rfl <;> rfl
+
+
+/-! ## the server's side of the wire (`Model/Frame.lean`): frames, `Request` decoding, one connection -/
+
+section Wire
+open FrameM
+
+/-- `request_round_trip`: whatever request the client encodes (every length below 2^64), the server decodes exactly that
+    request from the frame body, whatever bytes follow it -/
+theorem request_round_trip (r : Req) (h : WfReq r) (tail : Bytes) : decReq (encReq r ++ tail) = some r :=
+  FrameM.decReq_encReq r h tail
+
+/-- `reads_do_not_matter`: two ways of cutting the same byte stream into reads give the same requests handed to the
+    service, the same end of the connection and the same leftover bytes — for every byte stream, valid or not -/
+theorem reads_do_not_matter (c : Conn) (x y : Bytes) (xs ys : List Bytes) (h : (x :: xs).flatten = (y :: ys).flatten) :
+    feedAll c (x :: xs) = feedAll c (y :: ys) := FrameM.split_invariant c x y xs ys h
+
+/-- `malformed_ends_only_its_connection`: a server is a family of connections; feeding any bytes to one of them leaves the
+    state of every other connection as it was (the model has no shared decoder state — the tie `h_frames` checks the real
+    server against it with a witness connection) -/
+theorem malformed_ends_only_its_connection (conns : Nat → Conn) (i j : Nat) (chunk : Bytes) (h : i ≠ j) :
+    (fun k => if k = i then (feed (conns i) chunk).1 else conns k) j = conns j := by
+  simp [Ne.symm h]
+
+/-- an announced length above the limit ends the connection at once; nothing sent afterwards on it is looked at -/
+theorem oversized_frame_ends_connection (mf n : Nat) (head rest later : Bytes) (hh : head.length = 4) (hn : beVal head = n) (hbig : mf < n) :
+    (feed (Conn.init mf) (head ++ rest)).2 = [.closed] ∧
+    feed (feed (Conn.init mf) (head ++ rest)).1 later = ((feed (Conn.init mf) (head ++ rest)).1, []) := by
+  have h := FrameM.oversized_frame_closes mf n head rest hh hn hbig
+  exact ⟨h.1, FrameM.dead_ignores _ h.2 later⟩
+
+/-- non-vacuity: `GetStats` then `ZeroStats` in two frames, delivered one byte at a time or at once; a frame whose body is not a
+    request ends the connection after the requests before it -/
+example : (feedAll (Conn.init 100) [[0, 0, 0, 4, 1, 0], [0, 0], [0, 0, 0, 4, 0, 0, 0, 0]]).2 = [.request .getStats, .request .zeroStats] := by decide
+example : (feed (Conn.init 100) [0, 0, 0, 4, 1, 0, 0, 0, 0, 0, 0, 2, 9, 9, 0, 0, 0, 4, 0, 0, 0, 0]).2 = [.request .getStats, .closed] := by decide
+
+end Wire
 
 end C11
